@@ -212,6 +212,41 @@ impl HistSpec for FWorld {
     }
 }
 
+/// Environment deviations on the real file descriptor: each write(2) of a short history accepts only part of its
+/// buffer once, or answers EINTR once.  Acknowledged records must still be whole and complete.
+fn fd_deviations(rep: &mut Report) {
+    use crate::engine::fsfault::{self, Plan};
+    let w = FWorld { append: true, pre: Some("old\n"), nested: false, chunks: 3, sizes: vec![] };
+    let path = vec![FOp::Append(1025), FOp::Append(1), FOp::Append(2500), FOp::Append(700)];
+    let run = |short: Vec<(usize, usize)>, fail: Vec<(usize, i32)>| -> (Result<(), (String, String)>, usize) {
+        fsfault::begin(&crate::engine::sandbox::scratch_root(), Plan { fail, snapshots: false, kinds: vec!["write"], short });
+        fsfault::arm();
+        let r = w.conform(&path);
+        let n = fsfault::end().map_or(0, |(c, _)| c.len());
+        (r, n)
+    };
+    let (r0, n) = run(vec![], vec![]);
+    if let Err((s, d)) = r0 {
+        rep.violation(s, d, json!({"kind": "fd-deviation"}));
+        return;
+    }
+    let mut runs = 0u64;
+    for k in 0..n {
+        for max in [1usize, 700] {
+            runs += 1;
+            if let (Err((s, d)), _) = run(vec![(k, max)], vec![]) {
+                rep.violation(format!("short-write:{}", s), format!("write #{} of the history {:?} accepts only {} bytes: {}", k, path, max, d), json!({"kind": "fd-deviation", "k": k, "max": max}));
+            }
+        }
+        runs += 1;
+        if let (Err((s, d)), _) = run(vec![], vec![(k, libc::EINTR)]) {
+            rep.violation(format!("eintr:{}", s), format!("write #{} of the history {:?} answers EINTR once: {}", k, path, d), json!({"kind": "fd-deviation", "k": k, "errno": "EINTR"}));
+        }
+    }
+    rep.add("fd_deviation_runs", runs);
+    rep.add("traces_validated_against_impl", runs);
+}
+
 pub fn fworlds(tier: Tier) -> Vec<FWorld> {
     let mut v = vec![];
     for append in [true, false] {
@@ -355,6 +390,7 @@ pub fn run(ctx: &Ctx) -> Report {
             rep.violation(v.signature, format!("[{}] after {:?}: {}", w.describe(), v.path, v.detail), json!({"kind": "history", "world": {"append": w.append, "pre": w.pre, "nested": w.nested, "chunks": w.chunks}, "path": v.path.iter().map(|o| match o { FOp::Append(n) => json!({"append": n}), FOp::AppendOld(n) => json!({"append_old": n}), FOp::Reopen => json!("reopen") }).collect::<Vec<_>>()}));
         }
     }
+    fd_deviations(&mut rep);
     rep.set("max_depth", depth as u64);
     rep.sample(json!({"world": "truncate pre='old\\n' nested chunks=3", "path": [{"append": 1025}, "reopen", {"append": 0}, {"append": 2500}]}));
     for (h, bound) in sharnesses(ctx.tier) {
@@ -379,6 +415,14 @@ pub fn run(ctx: &Ctx) -> Report {
 }
 
 pub fn replay(case: &Value) -> Result<(), String> {
+    if case["kind"] == "fd-deviation" {
+        let mut rep = Report::new("model_checking");
+        fd_deviations(&mut rep);
+        return match rep.violations().first() {
+            Some(v) => Err(format!("{}: {}", v.signature, v.detail)),
+            None => Ok(()),
+        };
+    }
     if case["kind"] == "schedule" {
         let h = &case["harness"];
         let h = SHarness { threads: h["threads"].as_u64().unwrap_or(2) as usize, per_thread: h["per_thread"].as_u64().unwrap_or(1) as usize, size: h["size"].as_u64().unwrap_or(24) as usize, chunks: h["chunks"].as_u64().unwrap_or(2) as usize };
